@@ -19,6 +19,7 @@ def main():
     tier = "quick"
     only = None
     props = None
+    out = None  # separate results file for parallel runs; merge with tools/seedmerge.py
     a = sys.argv[1:]
     while a:
         x = a.pop(0)
@@ -28,8 +29,10 @@ def main():
             only = set(a.pop(0).split(","))
         elif x == "--props":
             props = set(a.pop(0).split(","))
+        elif x == "--out":
+            out = a.pop(0)
     results = {}
-    rp = os.path.join(SEEDED, "RESULTS.json")
+    rp = out or os.path.join(SEEDED, "RESULTS.json")
     if os.path.exists(rp):
         results = json.load(open(rp))
     names = sorted(d for d in os.listdir(SEEDED) if os.path.isdir(os.path.join(SEEDED, d)))
@@ -53,6 +56,18 @@ def main():
         try:
             p = subprocess.run(["git", "-C", wt, "apply", os.path.join(d, "patch.diff")], capture_output=True, text=True)
             if p.returncode != 0:
+                # the tree has moved since the seed was made (fix commits): try a 3-way merge, then fuzzy patch
+                p = subprocess.run(["git", "-C", wt, "apply", "--3way", os.path.join(d, "patch.diff")], capture_output=True, text=True)
+                if p.returncode != 0:
+                    subprocess.run(["git", "-C", wt, "checkout", "--", "."], capture_output=True)
+                    p = subprocess.run(["patch", "-p1", "-s", "-F3", "--no-backup-if-mismatch", "-d", wt, "-i", os.path.join(d, "patch.diff")], capture_output=True, text=True)
+                    if p.returncode != 0:
+                        subprocess.run(["git", "-C", wt, "checkout", "--", "."], capture_output=True)
+                if p.returncode == 0:
+                    b = subprocess.run(["go", "build", "./..."], cwd=wt, env=dict(os.environ, GOFLAGS="-mod=mod", GOPROXY="off"), capture_output=True, text=True)
+                    if "movie.mp4" not in (b.stdout + b.stderr) and b.returncode != 0 and "viewer-tests" not in (b.stdout + b.stderr):
+                        p = subprocess.CompletedProcess([], 1, "", "merged patch does not build: " + (b.stdout + b.stderr)[-200:])
+            if p.returncode != 0:
                 results[name] = {"property": pid, "result": "patch-does-not-apply", "detail": p.stderr[-300:]}
                 continue
             also = meta.get("also_check", [])
@@ -75,6 +90,8 @@ def main():
             subprocess.run(["git", "-C", "/repo", "worktree", "remove", "--force", wt], capture_output=True)
             subprocess.run(["rm", "-rf", wt])
         json.dump(results, open(rp, "w"), indent=1, sort_keys=True)
+    if out:
+        return
     # after the runs the Generated files/harness must be rebuilt for /repo itself on the next check
     with open(os.path.join(SEEDED, "RESULTS.md"), "w") as f:
         f.write("| seeded change | property | result | how |\n|---|---|---|---|\n")
